@@ -122,8 +122,18 @@ func reflectFields(m proto.Message) (map[string]int, map[string]string) {
 }
 
 type recAbs struct {
-	Nums map[string]int    `json:"nums"`
-	Strs map[string]string `json:"strs"`
+	Nums map[string]int   `json:"nums"`
+	Strs map[string][]int `json:"strs"` // strings are logged as byte sequences
+}
+
+func sb(s string) []int { return vt.B([]byte(s)) }
+
+func strMapB(m map[string]string) map[string][]int {
+	out := map[string][]int{}
+	for k, v := range m {
+		out[k] = sb(v)
+	}
+	return out
 }
 
 func ie(name string, ent uint32) *entities.InfoElement {
@@ -153,7 +163,7 @@ func randIP(r *rand.Rand, v6 bool) net.IP {
 }
 
 func randRecord(r *rand.Rand, v6 bool) (entities.Record, recAbs) {
-	a := recAbs{Nums: map[string]int{}, Strs: map[string]string{}}
+	a := recAbs{Nums: map[string]int{}, Strs: map[string][]int{}}
 	var elems []entities.InfoElementWithValue
 	num := func(v int) int {
 		switch r.Intn(5) {
@@ -178,7 +188,7 @@ func randRecord(r *rand.Rand, v6 bool) (entities.Record, recAbs) {
 	}
 	elems = append(elems, entities.NewIPAddressInfoElement(ie(sn, 0), src), entities.NewIPAddressInfoElement(ie(dn, 0), dst),
 		entities.NewIPAddressInfoElement(ie(cn, registry.AntreaEnterpriseID), cip))
-	a.Strs[sn], a.Strs[dn], a.Strs[cn] = src.String(), dst.String(), cip.String()
+	a.Strs[sn], a.Strs[dn], a.Strs[cn] = sb(src.String()), sb(dst.String()), sb(cip.String())
 	sp, dp, pr, svc := r.Intn(65536), r.Intn(65536), r.Intn(256), r.Intn(65536)
 	elems = append(elems, entities.NewUnsigned16InfoElement(ie("sourceTransportPort", 0), uint16(sp)), entities.NewUnsigned16InfoElement(ie("destinationTransportPort", 0), uint16(dp)),
 		entities.NewUnsigned8InfoElement(ie("protocolIdentifier", 0), uint8(pr)), entities.NewUnsigned16InfoElement(ie("destinationServicePort", registry.AntreaEnterpriseID), uint16(svc)))
@@ -207,7 +217,7 @@ func randRecord(r *rand.Rand, v6 bool) (entities.Record, recAbs) {
 			v = string(b)
 		}
 		elems = append(elems, entities.NewStringInfoElement(ie(n, registry.AntreaEnterpriseID), v))
-		a.Strs[n] = v
+		a.Strs[n] = sb(v)
 	}
 	r.Shuffle(len(elems), func(i, j int) { elems[i], elems[j] = elems[j], elems[i] })
 	return entities.NewDataRecordFromElements(256, elems, true), a
@@ -262,7 +272,7 @@ func main() {
 					nums, strs, ok = readWire(val[4:])
 				}
 				ev["wireok"] = ok
-				ev["fields"] = vt.Ev{"nums": nums, "strs": strs}
+				ev["fields"] = vt.Ev{"nums": nums, "strs": strMapB(strs)}
 				cm := sc.mk()
 				kc2 := consumer.NewKafkaConsumer(consumer.ConsumerInput{KafkaTopic: topic, KafkaProtoSchema: cm, MsgDelimitWithLen: true})
 				_ = kc
@@ -276,7 +286,7 @@ func main() {
 					ev["consok"] = cerr == nil
 				}()
 				cn, cs := reflectFields(cm)
-				ev["cons"] = vt.Ev{"nums": cn, "strs": cs}
+				ev["cons"] = vt.Ev{"nums": cn, "strs": strMapB(cs)}
 				w.Emit(ev)
 			}
 		}()
@@ -292,7 +302,7 @@ func main() {
 			m.SetObsDomainID(uint32(dm))
 			m.SetExportAddress(addr)
 			set := entities.NewSet(true)
-			abs := vt.Ev{"time": tm, "seq": sq, "dom": dm, "addr": addr}
+			abs := vt.Ev{"time": tm, "seq": sq, "dom": dm, "addr": sb(addr)}
 			if r.Intn(5) == 0 {
 				set.PrepareSet(entities.Template, 256)
 				el, _ := entities.DecodeAndCreateInfoElementWithValue(ie("protocolIdentifier", 0), nil)
